@@ -272,6 +272,10 @@ def _wait_block(tr, stmts, pvar, depth=0):
                 and isinstance(st.exc.args[0], ast.Attribute) and ast.unparse(st.exc.args[0].value) == 'Faults':
             return '(WaitAns.fault %s)' % lean_str(st.exc.args[0].attr)
         return '(WaitAns.other %s)' % lean_str('raise ' + (ast.unparse(st.exc) if st.exc else ''))
+    if isinstance(st, ast.Return) and isinstance(st.value, ast.IfExp):
+        # `return X if c else Y` is `if c: return X` / `return Y`
+        v = st.value
+        return _wait_block(tr, [ast.If(test=v.test, body=[ast.Return(value=v.body)], orelse=[ast.Return(value=v.orelse)])] + rest, pvar, depth)
     if isinstance(st, ast.Return):
         if isinstance(st.value, ast.Name) and st.value.id == 'NOT_DONE_YET':
             return 'WaitAns.again'
